@@ -282,6 +282,40 @@ def generic_job():
             "family": "generic", "meta": {}}
 
 
+GENALIAS_SRC = """
+from __future__ import annotations
+import dataclasses, typing
+type Pair[T] = tuple[T, T]
+type Box[T] = dict[str, T]
+type Rows[K, V] = list[dict[K, V]]
+@dataclasses.dataclass
+class Node:
+    x: int
+@dataclasses.dataclass
+class Other:
+    y: str
+@dataclasses.dataclass
+class Holder:
+    first: Pair[Node]
+    second: Pair[Other]
+    third: Box[Node]
+    again: Pair[Node]
+@dataclasses.dataclass
+class Tree:
+    kids: Box[Tree]
+    pair: typing.Optional[Pair[Tree]] = None
+"""
+
+
+def genalias_job():
+    """PEP 695 generic aliases, subscripted: a node like any other, preceded by its arguments; two parametrisations of one alias
+    are two types, and a deferred node for one denotes it parameters included."""
+    roots = ["Pair[Node]", "list[Box[Other]]", "Holder", "Pair[int]", "dict[str, Pair[Other]]", "typing.Optional[Box[Node]]", "Tree",
+             "Rows[str, Node]", "tuple[Pair[Node], Pair[Other], Pair[Node]]", "list[Holder]"]
+    return {"prog": {"src": GENALIAS_SRC, "module": "vm_c09_genalias"}, "roots": [{"ty": ["expr", e], "kind": "generic-alias"} for e in roots],
+            "family": "genalias", "meta": {}}
+
+
 FWDARG_SRC = """
 from __future__ import annotations
 import dataclasses, typing
@@ -452,6 +486,7 @@ def build_jobs(ctx):
         if isinstance(inp, dict) and "prog" in inp and "root" in inp:
             jobs.append({"prog": inp["prog"], "roots": [inp["root"]], "family": "focus", "meta": {}})
     jobs.append(generic_job())
+    jobs.append(genalias_job())
     jobs.append(fwdarg_job())
     jobs.append(shadow_job())
     jobs.append(redefinition_job())
